@@ -18,7 +18,7 @@ import warnings
 
 import numpy as np
 
-from .. import gen, mon, oracle, xu, zoo
+from .. import gen, mon, xu, zoo
 
 LEVEL = "exploration"
 RULE = (
